@@ -83,12 +83,13 @@ fn ribbon_calls() -> BoxedStrategy<ApiCase> {
     let call = prop_oneof![
         4 => v.clone().prop_map(RibbonCall::Poll),
         3 => (v, 0u16..4000).prop_map(|(x, n)| RibbonCall::PollN(x, n)),
+        2 => (-40i8..=8, prop_oneof![1 => 0u16..50, 2 => 200u16..4000]).prop_map(|(u, n)| RibbonCall::PollNearBoundary(u, n)),
         1 => Just(RibbonCall::Value),
         1 => Just(RibbonCall::Pressing),
         1 => Just(RibbonCall::JustPressed),
         1 => Just(RibbonCall::JustReleased),
     ];
-    (0u8..24, 0u8..4, 0.0f32..=1.0, log_uniform(1.0, 1000.0), proptest::collection::vec(call, 0..60))
+    (0u8..24, 0u8..4, prop_oneof![3 => 0.0f32..=1.0, 1 => Just(0.0362f32), 1 => Just(0.0f32), 1 => Just(1.0f32)], log_uniform(1.0, 1000.0), proptest::collection::vec(call, 0..60))
         .prop_map(|(rate_idx, softpot_idx, dropper_frac, pullup_factor, calls)| ApiCase::Ribbon { rate_idx, softpot_idx, dropper_frac, pullup_factor, calls })
         .boxed()
 }
